@@ -63,6 +63,7 @@ func runC09(c *an.Ctx) string {
 	r096Sorted(c)
 	r097ErrGates(c)
 	r098TempFiles(c)
+	r099KeyStrings(c, "R09.9")
 	return explanationC09
 }
 
@@ -167,6 +168,43 @@ func r093Ambient(c *an.Ctx) {
 	sort.Strings(bad)
 	c.Check(len(bad) == 0, rule, "generator-packages#ambient", 0, fmt.Sprintf("%d generator functions call no clock, pid, hostname, uuid, crypto/rand or shared math/rand source", scanned), strings.Join(bad, "; "))
 	c.Floor(rule, scanned, 900, "generator functions scanned")
+	// the local time zone is ambient input too: a time rendered or decomposed in generator code is first put in UTC
+	zoned := map[string]bool{"Format": true, "String": true, "AppendFormat": true, "Date": true, "Clock": true, "Year": true, "Month": true, "Day": true,
+		"Hour": true, "Weekday": true, "YearDay": true, "ISOWeek": true, "MarshalJSON": true, "MarshalText": true, "GoString": true}
+	nTimes := 0
+	for _, dir := range genDirs {
+		for _, f := range c.AllFuncs(dir) {
+			info := f.Pkg.TypesInfo
+			for _, call := range an.AllCallsIn(f.Decl.Body) {
+				se, ok := an.Unparen(call.Fun).(*ast.SelectorExpr)
+				if !ok || !zoned[se.Sel.Name] {
+					continue
+				}
+				if tv, ok := info.Types[se.X]; !ok || an.NamedTypeName(tv.Type) != "time.Time" {
+					continue
+				}
+				nTimes++
+				recv := an.Unparen(an.ResolveLocal(info, f.Decl.Body, se.X))
+				inUTC := false
+				if rc, ok := recv.(*ast.CallExpr); ok {
+					if rs, ok := an.Unparen(rc.Fun).(*ast.SelectorExpr); ok {
+						switch rs.Sel.Name {
+						case "UTC":
+							inUTC = true
+						case "In":
+							if len(rc.Args) == 1 {
+								if o := an.ObjOf(info, selName(rc.Args[0])); o != nil && o.Name() == "UTC" && o.Pkg() != nil && o.Pkg().Path() == "time" {
+									inUTC = true
+								}
+							}
+						}
+					}
+				}
+				c.Check(inUTC, rule, fmt.Sprintf("%s#%s", f.Name, an.Src(c.Fset, call.Fun)), call.Pos(), "the time is put in UTC before it is rendered", "a time value is rendered in the local time zone of the machine that runs the generator ("+an.Src(c.Fset, call)+"): the generated text differs between machines and between runs under different TZ settings")
+			}
+		}
+	}
+	c.Floor(rule, nTimes, 2, "renderings of time values in generator packages")
 	// the example randomizer is seeded from its parameter
 	if f, t := tableOf(c, rule, "expr", "NewFakerRandomizer", 0); t != nil {
 		var probs []string
@@ -743,4 +781,82 @@ func r098TempFiles(c *an.Ctx) {
 		}
 	}
 	c.Floor(rule, n, 1, "temporary files created by the generators")
+}
+
+// r099KeyStrings (R09.9): values of goa's primitive types are turned into text (map keys of JSON examples, server
+// variables) by type switches over Go basic types whose arms call strconv. Such switches are siblings: they must
+// handle the same set of basic types. A type one of them forgets falls into its default arm; in jsonExample that arm
+// gives every key of the forgotten type one and the same text, the entries of the example map overwrite each other
+// in the order reflect.Value.MapKeys returns them - map iteration order - and the generated text differs from run to
+// run. The union of the types handled by all such switches is the reference; string is exempt (handled before the
+// switch where keys are concerned).
+func r099KeyStrings(c *an.Ctx, rule string) {
+	type sw struct {
+		f     *an.Func
+		stmt  *ast.TypeSwitchStmt
+		types map[string]bool
+	}
+	var sws []sw
+	union := map[string]bool{}
+	basic := map[string]bool{"bool": true, "int": true, "int8": true, "int16": true, "int32": true, "int64": true, "uint": true, "uint8": true,
+		"uint16": true, "uint32": true, "uint64": true, "float32": true, "float64": true}
+	for _, dir := range genDirs {
+		for _, f := range c.AllFuncs(dir) {
+			info := f.Pkg.TypesInfo
+			ast.Inspect(f.Decl.Body, func(n ast.Node) bool {
+				ts, ok := n.(*ast.TypeSwitchStmt)
+				if !ok {
+					return true
+				}
+				got := map[string]bool{}
+				conv := 0
+				for _, cl := range ts.Body.List {
+					cc := cl.(*ast.CaseClause)
+					usesStrconv := false
+					for _, s := range cc.Body {
+						ast.Inspect(s, func(m ast.Node) bool {
+							if call, ok := m.(*ast.CallExpr); ok && strings.HasPrefix(an.CalleeName(info, call), "strconv.") {
+								usesStrconv = true
+							}
+							return true
+						})
+					}
+					if !usesStrconv {
+						continue
+					}
+					for _, e := range cc.List {
+						if id, ok := e.(*ast.Ident); ok && basic[id.Name] {
+							got[id.Name] = true
+							conv++
+						}
+					}
+				}
+				if conv >= 4 {
+					sws = append(sws, sw{f, ts, got})
+					for t := range got {
+						union[t] = true
+					}
+				}
+				return true
+			})
+		}
+	}
+	for _, s := range sws {
+		var missing []string
+		for t := range union {
+			if !s.types[t] {
+				missing = append(missing, t)
+			}
+		}
+		sort.Strings(missing)
+		construct := c.RefName(s.f) + "#typeswitch(strconv)"
+		if len(missing) == 0 {
+			c.Okf(rule, construct, "converts %d basic types to text, the same set as its sibling switches", len(s.types))
+			continue
+		}
+		for _, t := range missing {
+			c.Failf(rule, construct+":"+t, s.stmt.Pos(), "the switch that turns primitive values into text has no arm for %s although a sibling switch of the generators has: values of that type take the default arm (in jsonExample every such map key becomes the same text, and which entry of the example survives depends on map iteration order)", t)
+		}
+	}
+	c.Floor(rule, len(sws), 2, "primitive-to-text type switches")
 }
